@@ -56,7 +56,7 @@ def u_convert_numpy(W, sk):
     SL.check_unchanged(W, "convert_to_dict", snaps)
 
 
-def _rand_system(W, strided=True):
+def _rand_system(W, strided=True, zero_dim_flow=False):
     """concrete system with awkward names and (optionally) non-contiguous value arrays"""
     import numpy as np
     from flodym.dimensions import Dimension, DimensionSet
@@ -87,6 +87,9 @@ def _rand_system(W, strided=True):
         dl = [dims[l] for l in letters]
         name = f"{a} => {b}"
         flows[name] = Flow(dims=DimensionSet(dim_list=dl), values=vals(dl), name=name, from_process=procs[a], to_process=procs[b])
+    if zero_dim_flow:
+        name = "sysenv => in use (fleet)"
+        flows[name] = Flow(dims=DimensionSet(dim_list=[]), values=np.array(float(rng.randint(1, 40)) + 0.25), name=name, from_process=procs["sysenv"], to_process=procs["in use (fleet)"])
     dl = [T, P]
     st = SimpleFlowDrivenStock(dims=DimensionSet(dim_list=dl), name="fleet: in-use", process=procs["in use (fleet)"], stock=StockArray(dims=DimensionSet(dim_list=dl), values=vals(dl)), inflow=StockArray(dims=DimensionSet(dim_list=dl), values=vals(dl)), outflow=StockArray(dims=DimensionSet(dim_list=dl), values=vals(dl)))
     st2 = SimpleFlowDrivenStock(dims=DimensionSet(dim_list=[T]), name="loose stock", process=None)
@@ -170,6 +173,61 @@ def u_export_bounded(W, sk):
 
         shutil.rmtree(d, ignore_errors=True)
     W.prove("export.system_unchanged", all(bool(np.array_equal(mfa.flows[n].values, before[n])) for n in before) and all(bool(np.array_equal(a.values, b)) for n, s in mfa.stocks.items() for a, b in zip((s.stock, s.inflow, s.outflow), before_s[n])))
+
+
+@unit(
+    "export.zero_dimensional_flow.bounded",
+    props=["C19"],
+    targets=["flodym.export.data_writer.convert_to_dict", "flodym.export.data_writer.export_mfa_to_pickle", "flodym.export.data_writer.export_mfa_flows_to_csv", "flodym.flodym_arrays.FlodymArray.to_df"],
+    skeletons=lambda tier: [{"form": f, "zero_dim_flow": True} for f in ("numpy", "pickle", "pandas", "csv_flows")],
+    mode="bounded",
+    note="the system of export.pandas_csv_pickle.bounded plus one flow without dimensions (a plain number): every export form must contain it with its value",
+)
+def u_export_zero_dim(W, sk):
+    import pickle
+    import numpy as np
+    import pandas as pd
+    from flodym.export.data_writer import convert_to_dict, export_mfa_to_pickle, export_mfa_flows_to_csv
+    from flodym.export.helper import to_valid_file_name
+
+    mfa = _rand_system(W, zero_dim_flow=True)
+    name = "sysenv => in use (fleet)"
+    want = float(mfa.flows[name].values)
+    W.inputs["zero_dimensional_flow"] = {name: want}
+    d = tempfile.mkdtemp(prefix="fvc_exp0_")
+    try:
+        form = sk["form"]
+        if form in ("numpy", "pandas"):
+            out = W.call(lambda: convert_to_dict(mfa, form))
+            W.prove(f"{form}.returns", out.kind == "return", detail=repr(out))
+            if out.kind != "return":
+                return
+            got = out.value["flows"].get(name)
+            if form == "numpy":
+                W.prove("numpy.zero_dimensional_flow_with_its_value", got is not None and np.shape(got) == () and float(got) == want)
+            else:
+                W.prove("pandas.zero_dimensional_flow_with_its_value", got is not None and len(got) == 1 and float(got["value"].iloc[0]) == want, detail=str(got))
+        elif form == "pickle":
+            path = os.path.join(d, "mfa.pickle")
+            out = W.call(lambda: export_mfa_to_pickle(mfa, path))
+            W.prove("pickle.returns", out.kind == "return", detail=repr(out))
+            if out.kind != "return":
+                return
+            dd = pickle.load(open(path, "rb"))
+            W.prove("pickle.zero_dimensional_flow_with_its_value", name in dd["flows"] and float(dd["flows"][name]) == want)
+        else:
+            out = W.call(lambda: export_mfa_flows_to_csv(mfa, d))
+            W.prove("csv_flows.returns", out.kind == "return", detail=repr(out))
+            if out.kind != "return":
+                return
+            files = sorted(os.listdir(d))
+            W.prove("csv_flows.one_file_per_flow", files == sorted(to_valid_file_name(n) + ".csv" for n in mfa.flows), detail=str(files))
+            df = pd.read_csv(os.path.join(d, to_valid_file_name(name) + ".csv"), float_precision="round_trip")
+            W.prove("csv_flows.zero_dimensional_flow_with_its_value", len(df) == 1 and float(df["value"].iloc[0]) == want, detail=str(df))
+    finally:
+        import shutil
+
+        shutil.rmtree(d, ignore_errors=True)
 
 
 @unit(
